@@ -667,3 +667,86 @@ def c10(tier):
     res.extra["exhaustive_part"] = "all frameworks <= 3 arguments x 13 encoder variants (real code); Enc.tla transcription model-checked with threshold 2"
     res.assumptions = ["the harness' CaDiCaL-based all-models enumerator (validated against TLC's brute force on every clause set with <= 9 variables)"]
     return res.finish()
+
+
+# ----------------------------------------------------------------------------------------------------------------
+# C19 equivalence reduction
+# ----------------------------------------------------------------------------------------------------------------
+@check("C19")
+def c19(tier):
+    res = Result("C19", tier)
+    vlib.build_harness()
+    thorough = tier == "thorough"
+    sets = af_sets(res, tier)
+    rnd = afgen.random_afs(seed() + 77, 6000 if thorough else 1500, 4, 9)
+    plans = [("ref3", sets["ref3"]), ("iso4", afgen.iso4_sample(seed(), 100000 if thorough else 1500)),
+             ("shaped", [a for a in sets["shaped"] if a["n"] <= 10]), ("rand", rnd),
+             ("groundedmix", afgen.grounded_mix(seed(), 20000 if thorough else 4000))]
+    nt = set()
+    for name, afs in plans:
+        afile = os.path.join(res.wd, name + ".afs.jsonl")
+        out = os.path.join(res.wd, name + ".ndjson")
+        afgen.write(afile, afs)
+        vlib.vh(["equiv", "--afs", afile, "--out", out, "--threads", vlib.NCPU])
+        evs = [json.loads(l) for l in open(out)]
+        segs = [[{"ev": "reset"}] + evs[i:i + 400] for i in range(1, len(evs), 400)]
+        t1, st = vlib.judge("TraceEquiv.tla", segs, res.wd, name, shards=8)
+        res.add_judge(name, t1, st, only_props={"C19"})
+        for e in evs[1:]:
+            if any(len(c) >= 2 for c in e["classes"]) and len(e["classes"]) >= 2:
+                nt.add((json.dumps(e["att"]), len(e["args"])))
+        if len(res.samples) < 3:
+            cand = [e for e in evs[1:] if any(len(c) >= 2 for c in e["classes"]) and len(e["classes"]) >= 3]
+            if cand:
+                res.samples.append(cand[len(cand) // 2])
+    res.nontrivial = len(nt)
+    res.rule = ("all frameworks <= 3 arguments, isomorphism classes of 4-argument frameworks, shaped and seeded random frameworks of 4-9 arguments "
+                "(compact ids; every third one through the ICCMA reader with duplicated attack lines) through EquivalencyComputer; "
+                "non-trivial = reduction with a merged class of >= 2 arguments and >= 2 classes")
+    res.exhaustive = False
+    res.extra["exhaustive_part"] = "all frameworks <= 3 arguments" + ("; all 3044 isomorphism classes of 4-argument frameworks" if thorough else "")
+    return res.finish()
+
+
+# ----------------------------------------------------------------------------------------------------------------
+# C11 presentation invariance, locality, cross-semantics consistency
+# ----------------------------------------------------------------------------------------------------------------
+@check("C11")
+def c11(tier):
+    res = Result("C11", tier)
+    vlib.build_harness()
+    thorough = tier == "thorough"
+    # the relations are theorems of the semantics: checked over all small frameworks (IsoInvariant, Product, StableCoincide, ...)
+    small = mcdung(res, 4 if thorough else 3)
+    s = seed()
+    k = 4 if thorough else 1
+    larges = afgen.large_afs(s, 150 * k, 20, 50) + afgen.large_afs(s + 1, 60 * k, 51, 120) + afgen.large_afs(s + 2, 40 * k, 121, 300)
+    mids = afgen.random_afs(s + 3, 300 * k, 6, 14) + [a for a in afgen.shaped() if a["n"] >= 3] + afgen.grounded_mix(s, 200 * k, 6, 12)
+    smalls = [a for a in small if a["n"] == 3] if thorough else random.Random(s).sample([a for a in small if a["n"] == 3], 200)
+    nt = set()
+    for name, afs in (("large", larges), ("medium", mids), ("small", smalls)):
+        afile = os.path.join(res.wd, name + ".afs.jsonl")
+        out = os.path.join(res.wd, name + ".ndjson")
+        afgen.write(afile, afs)
+        t = time.time()
+        vlib.vh(["meta", "--afs", afile, "--out", out, "--seed", s, "--threads", vlib.NCPU])
+        segs = vlib.segments(out, openers=("reset",))
+        log("  RUN meta %-7s %5d frameworks -> %7d events %.1fs" % (name, len(afs), sum(len(x) for x in segs), time.time() - t))
+        t1, st = vlib.judge("TraceMeta.tla", segs, res.wd, name, shards=8)
+        res.add_judge(name, t1, st, only_props={"C11"})
+        for seg in segs:
+            for e in seg[1:]:
+                if e["ev"] == "pair" and len(set(e["base"])) >= 2:
+                    nt.add((seg[0]["idx"], name, e["rel"], e["sem"], e["kind"]))
+        if len(res.samples) < 3:
+            sg = segs[len(segs) // 2]
+            res.samples.append({"framework": sg[0], "pair": next(e for e in sg if e["ev"] == "pair" and len(set(e["base"])) >= 2) if any(e["ev"] == "pair" and len(set(e["base"])) >= 2 for e in sg) else sg[1]})
+    res.nontrivial = len(nt)
+    res.rule = ("base instances: sparse random, layered and cycle-union graphs of 20-300 arguments (semantics capped by size: GR/CO/ST <= 300, PR <= 120, "
+                "SST/STG/ID <= 50), random/shaped/grounded-mix frameworks of 6-16 arguments, 3-argument frameworks; for each, 6 sampled arguments x DC/DS x "
+                "semantics on the instance and on 4 transforms (argument permutation + attack reordering, duplicated/reordered ICCMA attack lines, union "
+                "with a component with / without a stable extension), plus one cross-semantics event; non-trivial = pair whose base statuses are not all equal")
+    res.exhaustive = False
+    res.extra["exhaustive_part"] = "the relations as theorems over all frameworks <= %d arguments (MCDung)" % (4 if thorough else 3)
+    res.assumptions = ["on 20-300 arguments only relations between runs and polynomial necessary conditions are judged (DESIGN.md section 8)"]
+    return res.finish()
